@@ -40,6 +40,7 @@ structure Dgram where
 inductive Beh | pb | pbe | none | sep | empty | blk
   | rst | rstc        -- the handler sets the reply's type to Reset (code 0.00 / code 4.04)
   | ox | oc | oxc     -- like pb; the reply carries option numbers the library does not know (elective / critical / both)
+  | ov (id len : Nat) -- like pb; the reply carries one more option: number `id`, a value of `len` bytes
   deriving Repr, DecidableEq
 
 /-- One arrival of a request and what the endpoint was observed to do in reaction. -/
